@@ -106,25 +106,22 @@ Theorem C07_class_errors_table :
      (forall f, callee <> VClosure f) -> call_value ar callee argc = Err TypeError "Can only call functions and methods.").
 Proof. exact class_errors_table. Qed.
 
-(* --- the mini-language: M and S agree (partial: see ClassesProofs.v), and provably differ in the known class --- *)
-Theorem C07_eval_mech_eq_spec_partial :
-  Inv st0 /\
-  (forall S c st cd st' o, Inv st -> (S = sem_mech \/ S = sem_spec) -> exec_class S c st cd = (st', o) ->
-     Inv st' /\
-     (hist st' = hist st \/
-      exists d, hist st' = (hist st ++ [d])%list /\
-        forall f cl, nth_error (closures st') f = Some cl ->
-          nth_error (closures st) f = Some cl \/
-          (cl_owner cl = Some (List.length (hist st)) /\ cl_super cl = option_map VClass (d_super d)))) /\
-  (forall st, Inv st ->
-     (forall recv n, s_get sem_mech st recv n = s_get sem_spec st recv n) /\
-     (forall recv n argc, s_invoke sem_mech st recv n argc = s_invoke sem_spec st recv n argc) /\
-     (forall c n argc, ctx_ok st c -> s_super_get sem_mech st c n = s_super_get sem_spec st c n /\
-                                      s_super_invoke sem_mech st c n argc = s_super_invoke sem_spec st c n argc) /\
-     (forall r q, s_derives sem_mech st r q = s_derives sem_spec st r q) /\
-     s_next_cid sem_mech st = s_next_cid sem_spec st /\
-     (forall r, s_cname sem_mech st r = s_cname sem_spec st r)).
-Proof. exact eval_mech_eq_spec_partial. Qed.
+(* --- the mini-language: for every program outside the known class, M and S compute the same final state and
+   outcome; inside the known class they provably differ --- *)
+Theorem C07_eval_mech_eq_spec : forall p, known_class p = false -> eval_mech p = eval_spec p.
+Proof. exact eval_mech_eq_spec. Qed.
+Theorem C07_eval_mech_eq_spec_any_fuel : forall fuel p, known_class p = false ->
+  ev sem_mech fuel ctx0 (TS p) st0 = ev sem_spec fuel ctx0 (TS p) st0.
+Proof. exact eval_mech_eq_spec_fuel. Qed.
+Theorem C07_super_captured_at_definition : forall S c st cd st' o, Inv st -> (S = sem_mech \/ S = sem_spec) ->
+  exec_class S c st cd = (st', o) ->
+  Inv st' /\
+  ((hist st' = hist st /\ closures st' = closures st) \/
+   exists d ncl, hist st' = (hist st ++ [d])%list /\ closures st' = (closures st ++ ncl)%list /\
+     Forall (fun cl => cl_owner cl = Some (List.length (hist st)) /\ cl_super cl = option_map VClass (d_super d) /\
+                       (forall name sup defctor ms label, cd = CDecl name sup defctor ms label -> mdecls_known ms = false ->
+                          stmts_known (is_fun (cl_kind cl)) (cl_body cl) = false)) ncl).
+Proof. exact exec_class_inv. Qed.
 Theorem C07_eval_mech_eq_spec_refuted_in_known_class :
   exists p, known_class p = true /\ show_outcome (eval_mech p) <> show_outcome (eval_spec p).
 Proof. exact eval_mech_eq_spec_refuted_in_known_class. Qed.
@@ -144,5 +141,7 @@ Print Assumptions C07_derives_iff_ancestor.
 Print Assumptions C07_constructor_returns_instance.
 Print Assumptions C07_no_implicit_super_init.
 Print Assumptions C07_class_errors_table.
-Print Assumptions C07_eval_mech_eq_spec_partial.
+Print Assumptions C07_eval_mech_eq_spec.
+Print Assumptions C07_eval_mech_eq_spec_any_fuel.
+Print Assumptions C07_super_captured_at_definition.
 Print Assumptions C07_eval_mech_eq_spec_refuted_in_known_class.
